@@ -10,7 +10,10 @@ use std::time::Instant;
 use serde::{Deserialize, Serialize};
 use serde_json::{json, Value};
 
-pub const VERIF_DIR: &str = "/verif";
+/// Root of the verification tree: /verif, or $VERIF_DIR when a check runs from a snapshot copy.
+pub fn verif_dir() -> String {
+    std::env::var("VERIF_DIR").unwrap_or_else(|_| "/verif".to_string())
+}
 
 #[derive(Debug, Clone, Copy, PartialEq, Eq)]
 pub enum Tier {
@@ -83,7 +86,7 @@ pub fn digest<T: Hash>(t: &T) -> u64 {
 }
 
 pub fn load_known() -> Vec<KnownFinding> {
-    let p = format!("{}/known_findings.json", VERIF_DIR);
+    let p = format!("{}/known_findings.json", verif_dir());
     match std::fs::read_to_string(&p) {
         Ok(s) => {
             let v: Value = serde_json::from_str(&s).expect("known_findings.json must parse");
@@ -189,7 +192,7 @@ impl Ctx {
         }
         let mut viol_out = vec![];
         for v in &self.violations {
-            let dir = format!("{}/replays/{}", VERIF_DIR, self.id);
+            let dir = format!("{}/replays/{}", verif_dir(), self.id);
             let _ = std::fs::create_dir_all(&dir);
             let name = match std::env::var("VERIF_REPLAY_FILE") {
                 Ok(f) => f, // replay mode: the given file is the replay
@@ -235,7 +238,7 @@ impl Ctx {
             "violations": self.violations.len(),
             "violation_details": viol_out,
         });
-        let dir = format!("{}/evidence", VERIF_DIR);
+        let dir = format!("{}/evidence", verif_dir());
         let _ = std::fs::create_dir_all(&dir);
         if std::env::var("VERIF_NO_EVIDENCE").is_err() {
             let _ = std::fs::write(
